@@ -51,6 +51,13 @@ def _seg_job(job):
             kw['age'] = age
         if esaa:
             kw['esaa'] = True
+        if n % 64 == 0:
+            # interference: the same mark asked with the option toggled, at another age and without an age just before
+            # the recorded call - an answer must not depend on what was asked before (results discarded)
+            call(fn, g, e, v, **dict(kw, esaa=not esaa))
+            call(fn, g, e, v, **dict(kw, age=(age or 40) + 5))
+            if age:
+                call(fn, g, e, v)
         r = call(fn, g, e, v, **kw)
         n += 1
         if prev is not None and prev[2] == r:
